@@ -163,14 +163,14 @@ def plan(ctx):
             # the withhold decision of the zombie environment needs a second deviation to land inside the next call
             items.append((c, (1, 1, 1, 2, 1) if c["abort"] == "zombie" else (1, 1, 1, 1, 1), 60000))
     else:
-        # the pairwise-covering set and a VERIF_SEED-rotated twelfth of the full product (N=5, all 3-call programs) at the
+        # the pairwise-covering set and a VERIF_SEED-rotated 1/48 of the full product (N=5, all 3-call programs) at the
         # quick bounds.  Deeper bounds were tried (two order deviations, three environment deviations): neither the full
-        # product nor the covering set alone finished within 75 minutes on 16 cores.
+        # product nor the covering set alone finished within 75 minutes on 16 cores, nor did a twelfth of the product at the quick bounds within 60.
         fields = ["n_jobs", "batch_size", "pre_dispatch", "return_as", "abort", "managed", "calls"]
         cover, rest = PC.pairwise_cover(configs, fields)
         for c in cover:
             items.append((c, (1, 1, 1, 2, 1) if c["abort"] == "zombie" else (1, 1, 1, 1, 1), 100000))
-        for c in PC.rotate_slice(rest, ctx.seed, 12):
+        for c in PC.rotate_slice(rest, ctx.seed, 48):
             items.append((c, (1, 1, 1, 2, 1) if c["abort"] == "zombie" else (1, 1, 1, 1, 1), 100000))
     items.sort(key=lambda it: -len(it[0]["calls"]))
     return PC.shard_items(items, lambda it: len(it[0]["calls"]), 2, nshards=6 if quick else 4)
@@ -187,7 +187,7 @@ def run(ctx):
                 "failing input iterator at first/second/last step, never-completing task + timeout} x n_jobs x batch_size x "
                 "pre_dispatch x return_as x with-block or not x {pending work dropped on abort, zombie completions that the "
                 "environment may withhold and deliver later}; all schedules within the bounds in samples. quick = pairwise "
-                "cover + seed-rotated 1/120 of the rest; thorough = pairwise cover + a seed-rotated twelfth of the full product with N=5 and all 3-call programs, same bounds. distinct_nontrivial = distinct outcomes")
+                "cover + seed-rotated 1/120 of the rest; thorough = pairwise cover + a seed-rotated 1/48 of the full product with N=5 and all 3-call programs, same bounds. distinct_nontrivial = distinct outcomes")
     ctx.exhaustive = True
     ctx.assumptions += ["same environment model and granularity as C01",
                         "real-backend part: configuration space exhaustive, schedules chosen by the OS; binds the environment model to the shipped backends",
